@@ -8,7 +8,7 @@ package ext
 //@   safety[C08]
 //@   requires len(b) >= 2
 //@   modifies uint8 at b
-//@   ensures be16(mem(b), lo(b)) == v && isByte(b[0]) && isByte(b[1])
+//@   ensures[C08,C10,C01] be16(mem(b), lo(b)) == v && isByte(b[0]) && isByte(b[1])
 //@   ensures forall j :: (j < lo(b) || j >= lo(b) + 2) ==> mem(b)[j] == old(mem(b))[j]
 //@   noalloc[C17]
 
@@ -16,7 +16,7 @@ package ext
 //@   safety[C08]
 //@   requires len(b) >= 4
 //@   modifies uint8 at b
-//@   ensures be32(mem(b), lo(b)) == v
+//@   ensures[C08,C10,C01] be32(mem(b), lo(b)) == v
 //@   ensures forall j :: (j < lo(b) || j >= lo(b) + 4) ==> mem(b)[j] == old(mem(b))[j]
 //@   noalloc[C17]
 
@@ -24,6 +24,6 @@ package ext
 //@   safety[C08]
 //@   requires len(b) >= 8
 //@   modifies uint8 at b
-//@   ensures be64(mem(b), lo(b)) == v
+//@   ensures[C08,C10,C01] be64(mem(b), lo(b)) == v
 //@   ensures forall j :: (j < lo(b) || j >= lo(b) + 8) ==> mem(b)[j] == old(mem(b))[j]
 //@   noalloc[C17]
